@@ -19,7 +19,7 @@ TFailed  == IsEvent("Failed") /\ R.h \in Hosts /\ Failed(R.h)       \* via Passi
 TTick    == IsEvent("Tick") /\ R.d >= 0 /\ Tick(R.d) /\ now' = R.now
 TRun     == IsEvent("Run") /\ Range(R.res) = RunRes(Range(R.addrs)) /\ Run(Range(R.addrs))
 TSetList == IsEvent("SetList") /\ SetList(Range(R.hosts))
-TResolve == IsEvent("Resolve") /\ Range(R.res) = ResolveRes /\ Resolve
+TResolve == IsEvent("Resolve") /\ Range(R.res) \in ResolveReplies /\ Resolve
 
 TraceNext == TReset \/ TFailed \/ TTick \/ TRun \/ TSetList \/ TResolve
 TraceSpec == TraceInit /\ [][TraceNext]_tvars
